@@ -121,6 +121,9 @@ func (f *fakeDest) Ack(ctx context.Context) ([]connector.DestinationAck, error) 
 		}
 	}
 	n := len(f.pending)
+	if f.spec.ChunkLess > 0 && n > f.spec.ChunkLess {
+		n -= f.spec.ChunkLess
+	}
 	if len(f.spec.Chunks) > 0 {
 		c := f.spec.Chunks[f.chunkIdx%len(f.spec.Chunks)]
 		f.chunkIdx++
